@@ -1143,8 +1143,12 @@ func FuzzC19(f *testing.F) {
 		} else if ws != nil || closeFn != nil {
 			t.Fatalf("failed Open(%q) returned results", raw)
 		}
+		cwd, _ := os.Getwd()
 		for fd, target := range fileFDs() {
-			if fds[fd] != target {
+			// (inputs that reach this point are neither absolute paths nor file URLs: whatever zap could open for them
+			// is relative to the working directory. Descriptors elsewhere - /sys, the module cache - belong to other
+			// goroutines of the fuzz worker and come and go on their own.)
+			if fds[fd] != target && cwd != "" && strings.HasPrefix(target, cwd+"/") {
 				t.Fatalf("fd leak for %q: descriptor %s -> %s is open after Open returned (err=%v) and was closed", raw, fd, target, err)
 			}
 		}
